@@ -71,35 +71,35 @@ type MapObj struct {
 }
 
 type waiter struct {
-	g     *G
-	val   Value    // pending send value
-	instr ssa.Instruction // receive instruction whose register gets the value
+	g       *G
+	val     Value           // pending send value
+	instr   ssa.Instruction // receive instruction whose register gets the value
 	commaOk bool
-	ev    *Event
+	ev      *Event
 }
 
 type ChanObj struct {
-	id     int
-	cap    int
-	buf    []Value
-	bufEv  []*Event // send events of buffered values
-	closed bool
-	closeEv *Event
-	recvq  []*waiter
-	sendq  []*waiter
-	nSend  int
-	nRecv  int
-	sendEvs []*Event
-	recvEvs []*Event
-	elem   types.Type
+	id       int
+	cap      int
+	buf      []Value
+	bufEv    []*Event // send events of buffered values
+	closed   bool
+	closeEv  *Event
+	recvq    []*waiter
+	sendq    []*waiter
+	nSend    int
+	nRecv    int
+	sendEvs  []*Event
+	recvEvs  []*Event
+	elem     types.Type
 	internal bool // harness-owned
 }
 
 type rangeIter struct {
-	m    *MapObj
-	keys []Value
-	i    int
-	str  string
+	m     *MapObj
+	keys  []Value
+	i     int
+	str   string
 	isStr bool
 }
 
@@ -107,8 +107,8 @@ func mkInt(c int64, bits int, uns bool) Int {
 	return Int{Bits: uint8(bits), Uns: uns, C: wrapInt(c, bits, uns)}
 }
 
-func (i Int) IsConc() bool { return i.T == nil }
-func (f Flt) IsConc() bool { return f.T == nil }
+func (i Int) IsConc() bool  { return i.T == nil }
+func (f Flt) IsConc() bool  { return f.T == nil }
 func (b Bool) IsConc() bool { return b.T == nil }
 
 func intInfo(t types.Type) (bits int, uns bool, ok bool) {
